@@ -176,8 +176,8 @@ func (g *c18) recoverPanic(kind string, js map[string]any) {
 
 func (g *c18) compare(a, b *timestamppb.Timestamp) {
 	obs := sctime.CompareAscending(a, b)
-	g.add("CompareAscending", vcoq.App("KCompare", coqTs(a), coqTs(b), vcoq.Int(obs)),
-		map[string]any{"a": jsTs(a), "b": jsTs(b), "obs": obs}, true)
+	g.addT("CompareAscending", vcoq.App("KCompare", coqTs(a), coqTs(b), vcoq.Int(obs)),
+		map[string]any{"a": jsTs(a), "b": jsTs(b), "obs": obs}, true, tsBandTag("cmp", a, b), tsGuardTag(a, b))
 }
 func (g *c18) periods(p, q *typestime.Period) {
 	pc, qc := proto.Clone(p), proto.Clone(q)
@@ -192,7 +192,7 @@ func (g *c18) periods(p, q *typestime.Period) {
 	if inverted(p) || inverted(q) {
 		gt = "guard:out(inverted-period)"
 	}
-	g.addT("PeriodsIntersect", vcoq.App("KIntersect", coqPeriod(p), coqPeriod(q), vcoq.Bool(oi)), js, nt, gt, periodClass(p, q))
+	g.addT("PeriodsIntersect", vcoq.App("KIntersect", coqPeriod(p), coqPeriod(q), vcoq.Bool(oi)), js, nt, append(periodBands(p, q), gt, periodClass(p, q))...)
 	js2 := map[string]any{"p": jsPeriod(p), "q": jsPeriod(q), "connected": oc}
 	g.add("PeriodsConnected", vcoq.App("KConnected", coqPeriod(p), coqPeriod(q), vcoq.Bool(oc)), js2, nt)
 }
@@ -364,11 +364,11 @@ func (g *c18) modeSum(ms []*traits.ElectricMode) {
 }
 
 func genC18(o *vcoq.Out, r *vcoq.Rand, tier string) error {
-	o.Header = "From SC Require Import Base.Prelude Timeline.Timestamp Timeline.Segment Timeline.Mode Timeline.Own Timeline.Wrap Timeline.C18Judge."
+	o.Header = "From SC Require Import Base.Prelude Timeline.Timestamp Timeline.Segment Timeline.Mode Timeline.Own Timeline.Wrap Timeline.GoTimeMode Timeline.C18Judge."
 	o.CaseType = "c18case"
 	o.Judge = "judge"
 	o.Shard = 400
-	o.Rule = "exhaustive: all period pairs with ends in {unbounded, 0..5 s} x nanos {0,1,999999999} subsampled to a full 2-end grid, all timestamp pairs of that grid; random: 64-bit-range timestamps, segment lists of 0-6 integer segments (zero-length and final infinite included), 1-4 lists per Sum, shifts/cuts at and around breakpoints, modes with/without start. Non-trivial: both periods non-nil; segment op on a non-empty list (Sum/mode Sum: >= 2 lists; Shift: d != 0). Distinct by the full input+observation term."
+	o.Rule = "exhaustive: all period pairs with ends in {unbounded, 0..5 s} x nanos {0,1,999999999} subsampled to a full 2-end grid, all timestamp pairs of that grid; every pair of 38 boundary values of the 64-bit seconds range (both sides of MinInt64/MaxInt64, MaxInt64-62135596800, +-2^62, +-2^53, the UnixNano, 2^31/2^32 and valid-Timestamp limits; nanos 0/1/999999999, out-of-range nanos outside the guard) for CompareAscending, the cut order, periods with those ends, the standard-library time calls and the mode operations; random: 64-bit-range timestamps, segment lists of 0-6 integer segments (zero-length and final infinite included), 1-4 lists per Sum, shifts/cuts at and around breakpoints, modes with/without start. Non-trivial: both periods non-nil; segment op on a non-empty list (Sum/mode Sum: >= 2 lists; Shift: d != 0). Distinct by the full input+observation term."
 	g := &c18{o: o, r: r}
 	scale := 1
 	if tier == "thorough" {
@@ -440,6 +440,10 @@ func genC18(o *vcoq.Out, r *vcoq.Rand, tier string) error {
 			g.periodCtors(a, b)
 		}
 	}
+	// both sides of every representation limit of the 64-bit range of seconds (edges.go)
+	g.edges(scale)
+	// Go's time.Time (AsTime / Compare / Sub / Add / New) and the mode operations over the same values (gotime.go)
+	g.goTime(scale)
 	// random 64-bit-range timestamps
 	big := func() *timestamppb.Timestamp {
 		var s int64
@@ -647,7 +651,17 @@ var expectedClasses = []string{
 	"cut:negative", "cut:zero", "cut:infinite", "cut:whole-before", "cut:proper",
 	"sum:no-edges", "sum:coinciding-edges", "sum:distinct-edges", "sum:infinite-tail-kept", "sum:open-tail-dropped",
 	"mcut:no-segments", "mcut:no-start-time", "mcut:before-start", "mcut:at-start", "mcut:after-end", "mcut:at-boundary", "mcut:splits-segment",
-	"guard:out(int64-overflow)", "guard:out(inverted-period)", "guard:out(negative-open-tail)",
+	"guard:out(int64-overflow)", "guard:out(inverted-period)", "guard:out(negative-open-tail)", "guard:out(invalid-nanos)",
+	"go:in-band", "go:out-of-band",
+	"pband:bottom", "pband:neg-far", "pband:valid", "pband:pos-far", "pband:top",
+}
+
+func init() {
+	for _, a := range bandNames {
+		for _, b := range bandNames {
+			expectedClasses = append(expectedClasses, "cmp:"+a+"/"+b)
+		}
+	}
 }
 
 var extremeStarts = []*timestamppb.Timestamp{
